@@ -433,6 +433,16 @@ fn scalar_field(e: &mut Entropy, tag: Option<u16>, card: CardK) -> FieldDef {
     FieldDef { card, tag, tlv_attr, ty, len, enc, order: e.below(6) as u8 }
 }
 fn fresh_tag(e: &mut Entropy, used: &mut Vec<u16>) -> u16 {
+    // every third tag is a look-alike of one already in use: the same low byte in another tag family (one byte, 1fXX, ffXX)
+    if !used.is_empty() && e.below(3) == 0 {
+        let low = used[e.below(used.len())] & 0xff;
+        for t in [0x1f00 | low, 0xff00 | low, low] {
+            if t != 0x1f && t != 0xff && !used.contains(&t) {
+                used.push(t);
+                return t;
+            }
+        }
+    }
     loop {
         let t = match e.below(5) {
             0 => 0x1f00 | (e.next() & 0xff),
